@@ -1,7 +1,7 @@
 (* C17 - resuming a session re-sends exactly the unfinished outbound handshakes.
    The disconnection is recorded through the hook the property names
    (Context::verif_mark_disconnected, --cfg poster_verif); elapsed time is a model parameter. *)
-From Poster Require Import Proofs.IndepP Model.Sim Proofs.ClientP Proofs.QuotaP Proofs.HandshakeP Proofs.ResumeP Proofs.SimInvP Proofs.OwnP Proofs.TraceP.
+From Poster Require Import Proofs.IndepP Model.Sim Proofs.ClientP Proofs.QuotaP Proofs.HandshakeP Proofs.ResumeP Proofs.SimInvP Proofs.OwnP Proofs.TraceP Proofs.ResumeKeepP.
 
 (* expiry: interval 0, or a finite interval that has elapsed; 0xFFFFFFFF never expires *)
 Theorem C17_expiry : forall (x : ctx) (t : N), t < 4294967296 ->
@@ -135,3 +135,19 @@ Theorem C17_connack_keeps_session : forall (x : ctx) (p : rxpkt),
   sei (handle_connack x p) = match pnum 17 (r_props p) with Some v => v | None => sei x end.
 Proof. exact connack_keeps_session. Qed.
 Print Assumptions C17_connack_keeps_session.
+
+(* a resumption reads the queue, it does not consume it (Proofs/ResumeKeepP.v): whatever the writer does - healthy, or failing
+   after any number of bytes so that the resumption breaks off -, the retransmit queue, the awaited acknowledgements, the
+   subscriptions, the inbound QoS 2 identifiers, the streams, the operations and the request queue are afterwards what they
+   were (only the send quota moves, C17_resend). So when the resumed connection is lost again before anything was
+   acknowledged, the next resumption re-sends exactly the same packets once more. *)
+Theorem C17_resumption_keeps_queue : forall (l : list (N * bytes)) (s : sys),
+  retx (c (fst (retransmit s l))) = retx (c s) /\ awaiting (c (fst (retransmit s l))) = awaiting (c s) /\
+  subs (c (fst (retransmit s l))) = subs (c s) /\ await_rel (c (fst (retransmit s l))) = await_rel (c s) /\
+  streams (fst (retransmit s l)) = streams s /\ ops (fst (retransmit s l)) = ops s /\ msgq (fst (retransmit s l)) = msgq s.
+Proof. intros l s. exact (retransmit_keeps l s). Qed.
+Print Assumptions C17_resumption_keeps_queue.
+Theorem C17_resume_twice : forall (l : list (N * bytes)) (s : sys), wbudget s = None ->
+  wire_ev (fst (retransmit (fst (retransmit s l)) l)) = wire_ev s ++ concat (map snd l) ++ concat (map snd l).
+Proof. exact resume_twice. Qed.
+Print Assumptions C17_resume_twice.
